@@ -31,6 +31,17 @@ class Fail(Exception):
     pass
 
 
+def register(name, fn):
+    """contracts may give their uninterpreted spec functions a numeric interpretation (any function satisfying the
+    axioms the contract assumes about it), so that invalid VCs mentioning them can be falsified numerically"""
+    FUNCS[name] = fn
+
+
+def pseudo(*key):
+    """deterministic pseudo-random real in (-3, 3) for a tuple of arguments"""
+    return random.Random(hash(key)).uniform(-3.0, 3.0)
+
+
 def _flatten(hyps):
     out = []
     todo = list(hyps)
@@ -160,7 +171,8 @@ class Evaluator:
                 if z3.is_eq(a) or z3.is_gt(a) or z3.is_ge(a) or z3.is_lt(a) or z3.is_le(a):
                     l, r = a.children()
                     for cell, other, flip in ((l, r, False), (r, l, True)):
-                        if z3.is_app_of(cell, z3.Z3_OP_SELECT) and z3.is_const(cell.arg(0)) and (z3.is_rational_value(other) or z3.is_int_value(other)):
+                        const_other = z3.is_rational_value(other) or z3.is_int_value(other)
+                        if z3.is_app_of(cell, z3.Z3_OP_SELECT) and z3.is_const(cell.arg(0)) and (const_other or (z3.is_eq(a) and not z3.is_app_of(other, z3.Z3_OP_SELECT))):
                             idx = round(self.ev(cell.arg(1)))
                             key = (cell.arg(0).decl().name(), idx)
                             c = self.ev(other)
